@@ -69,7 +69,22 @@ OPTION_METHODS = {"is_some", "is_none", "is_ok", "is_err", "unwrap_or", "unwrap_
 RET_FAMILY = {}
 
 
+# struct name -> field names in definition order (named-field structs of the analysed crates, unique names only)
+STRUCT_FIELDS = {}
+
+
 def set_ret_family(items_by_crate):
+    items_by_crate = list(items_by_crate)
+    STRUCT_FIELDS.clear()
+    dup = set()
+    for items in items_by_crate:
+        for it in items:
+            if it.get("k") == "Struct" and it.get("fields") and all(not str(f.get("name", "0")).isdigit() for f in it["fields"]):
+                if it["name"] in STRUCT_FIELDS:
+                    dup.add(it["name"])
+                STRUCT_FIELDS[it["name"]] = [f["name"] for f in it["fields"]]
+    for n in dup:
+        STRUCT_FIELDS.pop(n, None)
     RET_FAMILY.clear()
     seen = {}
     for items in items_by_crate:
@@ -666,7 +681,12 @@ class Run:
         if k == "PRange":
             return "%s..=%s" % (show(p.get("lo")), show(p.get("hi")))
         if k == "PStruct":
-            return "%s{%s}" % (p["path"].split("::")[-1], ",".join("%s:%s" % (f["name"], self.showpat(f["pat"])) for f in p["fields"]))
+            nm = p["path"].split("::")[-1]
+            fl = list(p["fields"])
+            order = STRUCT_FIELDS.get(nm)
+            if order and sorted(order) == sorted(f["name"] for f in fl):
+                fl.sort(key=lambda f: order.index(f["name"]))
+            return "%s{%s}" % (nm, ",".join("%s:%s" % (f["name"], self.showpat(f["pat"])) for f in fl))
         return k
 
     def e_Match(self, e, env):
@@ -760,6 +780,10 @@ class Run:
             if isinstance(bits, int):
                 return ("set", frozenset(chr(i) for i in range(64) if bits >> i & 1))
         fs = tuple((f["name"], self.eval(f["e"], env)) for f in e["fields"])
+        order = STRUCT_FIELDS.get(name)
+        if order and not e.get("rest") and sorted(order) == sorted(n for n, _ in fs):
+            d = dict(fs)
+            fs = tuple((n, d[n]) for n in order)  # (evaluated in source order, listed in definition order)
         return ("ctor", name, tuple(v for _, v in fs))
 
     def e_Index(self, e, env):
@@ -1495,6 +1519,19 @@ def is_const_text(t):
     return True
 
 
+def named_struct_text(t):
+    """`Name(a,b)` (how a struct literal value is shown) -> `Name{f1:a,f2:b}` (how the same constant is shown as a pattern)"""
+    m = re.match(r"^([A-Z][A-Za-z0-9_]*)\((.*)\)$", t.strip(), re.S)
+    if not m or m.group(1) not in STRUCT_FIELDS:
+        return t
+    from .machine import _split_top
+    parts = [x for x in _split_top(m.group(2), ",")]
+    order = STRUCT_FIELDS[m.group(1)]
+    if len(parts) != len(order):
+        return t
+    return "%s{%s}" % (m.group(1), ",".join("%s:%s" % (f, named_struct_text(x.strip())) for f, x in zip(order, parts)))
+
+
 def canon_cond(lab):
     """-> (canonical label, negated): `!x`, `a != b`, `a > b`, `a >= b`, `a <= b`, `x == true/false` are spelled with `==` and `<` only"""
     neg = False
@@ -1518,7 +1555,7 @@ def canon_cond(lab):
             # comparing with a constant is the pattern test `x matches CONST` (`if c == 'a'` and `match c { 'a' => ..}` agree,
             # and tests against different constants are known to exclude each other)
             x, k = (a, b) if is_const_text(b) else (b, a)
-            lab = "%s matches %s" % (x, k)
+            lab = "%s matches %s" % (x, named_struct_text(k))
             break
         elif op == "==" and b in ("true", "false"):
             lab, neg = a, (neg if b == "true" else not neg)
